@@ -9,10 +9,15 @@
 package c05
 
 import (
+	"Havoc/pkg/agent"
+	"Havoc/pkg/packager"
 	"encoding/json"
 	"fmt"
+	"io"
 	"math/rand"
+	"net"
 	"strings"
+	"time"
 
 	"Havoc/pkg/handlers"
 
@@ -80,6 +85,8 @@ type world struct {
 	db    string
 	loot  string
 	pivot bool
+	// relayIDs: request ids that agents used in relay callbacks (never issued by anybody)
+	relayIDs []uint32
 }
 
 func (w *world) snapshot() string {
@@ -147,6 +154,72 @@ func runHistory(c *lib.Ctx, h history) (sig, what string) {
 			if resp := w.checkin(a); resp.Panic != nil {
 				return lib.PanicSig(resp.Panic, resp.Stack), fmt.Sprintf("step %d: check-in panics: %v", si, resp.Panic)
 			}
+			w.queue[a] = nil
+			w.rec.Take()
+		case "socks-gone":
+			// relay traffic makes the teamserver queue packets of its own for the agent (no operator
+			// task behind them): a SOCKS client asks for a connection and resets; the agent's
+			// connect answer (under a request id R that was never issued) cannot be passed on, and
+			// the teamserver queues a close packet for the agent. Neither R nor any other id
+			// becomes acceptable by that.
+			if h.Pivot && a == 1 {
+				continue
+			}
+			port := rig.FreePort()
+			if port == 0 {
+				continue
+			}
+			socksCmd := func(cmd string) {
+				w.next++
+				r.TS.DispatchEvent(packager.Package{
+					Head: packager.Head{Event: packager.Type.Session.Type, User: "alice"},
+					Body: packager.Body{SubEvent: packager.Type.Session.Input, Info: map[string]any{
+						"DemonID": w.sims[a].Hex(), "CommandID": "2540", "TaskID": fmt.Sprintf("%08X", w.next),
+						"CommandLine": fmt.Sprintf("%s %d", cmd, port), "Command": cmd, "Params": fmt.Sprint(port)}}})
+			}
+			socksCmd("socks add")
+			if rig.WaitTCP(fmt.Sprintf("127.0.0.1:%d", port), 5*time.Second) {
+				var ag *agent.Agent
+				for _, x := range r.TS.Agents.Agents {
+					if x.NameID == w.sims[a].Hex() {
+						ag = x
+					}
+				}
+				socksID := func() int32 {
+					ag.SocksCliMtx.Lock()
+					defer ag.SocksCliMtx.Unlock()
+					for _, cl := range ag.SocksCli {
+						return cl.SocketID
+					}
+					return 0
+				}
+				if conn, err := net.DialTimeout("tcp", fmt.Sprintf("127.0.0.1:%d", port), 5*time.Second); err == nil {
+					conn.SetDeadline(time.Now().Add(5 * time.Second))
+					conn.Write([]byte{5, 1, 0})
+					io.ReadFull(conn, make([]byte, 2))
+					conn.Write([]byte{5, 1, 0, 1, 10, 9, 8, 7, 0, 80})
+					var sid int32
+					for i := 0; i < 1000 && sid == 0; i++ {
+						if sid = socksID(); sid == 0 {
+							time.Sleep(time.Millisecond)
+						}
+					}
+					conn.(*net.TCPConn).SetLinger(0)
+					conn.Close()
+					time.Sleep(5 * time.Millisecond) // the reset has arrived before the agent answers
+					if sid != 0 {
+						relayID := 0x68000000 + uint32(st.Pick)
+						var p demon.Pkg
+						p.I32(0x14).Bool(true).I32(uint32(sid)).I32(0)
+						w.checkin(a, demon.Callback{Cmd: demon.CmdSocket, ReqID: relayID, Body: p.B})
+						w.relayIDs = append(w.relayIDs, relayID)
+						c.Observe("socks-connect-answers-for-a-client-that-is-gone", 1)
+					}
+				}
+			}
+			socksCmd("socks kill")
+			rig.ReleasePort(port)
+			w.checkin(a)
 			w.queue[a] = nil
 			w.rec.Take()
 		case "drain":
@@ -308,6 +381,11 @@ func runHistory(c *lib.Ctx, h history) (sig, what string) {
 				if st.IDKind == "last" {
 					id = w.done[a][len(w.done[a])-1]
 				}
+			case "relay":
+				if len(w.relayIDs) == 0 {
+					continue
+				}
+				id = w.relayIDs[st.Pick%len(w.relayIDs)]
 			case "zero":
 				id = 0
 			case "max":
@@ -411,6 +489,13 @@ func gen(rng *rand.Rand) history {
 			step{Op: "genuine", Agent: a, Layout: fin},
 			step{Op: "replay-final", Agent: a, Layout: "output", IDKind: "last"},
 			step{Op: "replay-final", Agent: a, Layout: effectful[rng.Intn(len(effectful))], IDKind: "last"})
+	}
+	if rng.Intn(4) == 0 {
+		a := []int{0, 2}[rng.Intn(2)]
+		h.Steps = append(h.Steps, step{Op: "socks-gone", Agent: a, Pick: rng.Intn(1000)},
+			step{Op: "forge", Agent: a, Layout: "output", IDKind: "relay", Pick: 0},
+			step{Op: "forge", Agent: a, Layout: effectful[rng.Intn(len(effectful))], IDKind: "zero"},
+			step{Op: "forge", Agent: a, Layout: "sleep.fixed", IDKind: "relay", Pick: 0})
 	}
 	n := 12 + rng.Intn(18)
 	finals := []string{"checkin.meta", "fs.download.close", "sleep.fixed", "config.killdate"}
